@@ -72,6 +72,17 @@ def run(ctx):
         pairs.append((d, b))          # judged for is-superselector / selector-unify only (volume)
         lite.add(len(pairs))
         pairs.append((b, d))
+    # spelling variants: every third pair is also run with '.y' written as an id, an attribute or a pseudo-class (same meaning in
+    # the model, different simple-selector kinds in grass)
+    modes = ["id", "attr", "pseudo"]
+    variants = []
+    for pi, (a, b) in enumerate(pairs):
+        if (pi % 3 == 0 or thorough) and (".y" in a["text"] or ".y" in b["text"]):
+            md = modes[(pi // 3) % 3]
+            variants.append((dict(a, text=selparse.respell(a["text"], md)), dict(b, text=selparse.respell(b["text"], md))))
+    ctx.extra["spelling_variants"] = len(variants)
+    lite = set(lite)
+    pairs = list(pairs) + variants
     jobs = []
     meta = []
     for pi, (a, b) in enumerate(pairs):
@@ -83,9 +94,10 @@ def run(ctx):
         jobs.append({"id": len(jobs), "src": "x { sup: is-superselector(\"%s\", \"%s\"); self: is-superselector(\"%s\", \"%s\"); "
                                             "uni: inspect(selector-unify(\"%s\", \"%s\")); nest: selector-nest(\"%s\", \"%s\"); "
                                             "parse: selector-parse(\"%s\"); ext: selector-extend(\"%s\", \".x\", \"%s\"); "
-                                            "rep: selector-replace(\"%s\", \".x\", \"%s\"); }\n"
+                                            "rep: selector-replace(\"%s\", \".x\", \"%s\"); "
+                                            "cext: selector-extend(\"%s\", \".x.y\", \"%s\"); crep: selector-replace(\"%s\", \".x.y\", \"%s\"); }\n"
                                             "%s { %s { m: nest; } }\n"
-                                            % (A, B, A, A, A, B, A, B, A, A, B, A, B, A, B)})
+                                            % (A, B, A, A, A, B, A, B, A, A, B, A, B, A, B, A, B, A, B)})
         meta.append((a, b))
     res = C.run_cases([{k: v for k, v in j.items() if k != "lite"} for j in jobs], PID)
     # the @extend counterpart of selector-extend lives in its own style sheet (an @extend rewrites every rule of a sheet)
@@ -125,6 +137,8 @@ def run(ctx):
     ctx.validated += nappend
     tpath = os.path.join(C.WORK, "trace-C11-%d.ndjson" % os.getpid())
     events = []
+    judged = set()
+    nobs = [0]
 
     def ast_of(text):
         return selparse.parse_list(text)
@@ -150,34 +164,54 @@ def run(ctx):
             Bq = [b["ast"]]
 
             def ev(k, **kw):
-                e = {"id": len(events), "k": k, "a": A, "b": Bq, "out": [], "answer": False, "isnull": False}
+                e = {"k": k, "a": A, "b": Bq, "out": [], "answer": False, "isnull": False}
                 e.update(kw)
+                if k in ("superself", "same"):
+                    e["b"] = []                       # the second operand plays no part in these judgements
+                key = json.dumps(e, sort_keys=True)
+                nobs[0] += 1
+                if key in judged:                     # the same observation was already queued: one judgement serves both
+                    return
+                judged.add(key)
+                e["id"] = len(events)
                 events.append((j, a, b, k, kw))
                 f.write(json.dumps(e) + "\n")
-            try:
-                ev("super", answer=d.get("sup") == "true")
-                if j.get("lite"):
-                    if d.get("uni") == "null":
-                        ev("unify", isnull=True)
-                    else:
-                        ev("unify", out=ast_of(d.get("uni", "")))
-                    continue
-                ev("superself", answer=d.get("self") == "true")
-                if d.get("uni") == "null":
-                    ev("unify", isnull=True)
-                else:
-                    ev("unify", out=ast_of(d.get("uni", "")))
-                ev("same", out=ast_of(d.get("parse", "")))
-                if nested:
-                    ev("same", a=ast_of(d.get("nest", "")), out=ast_of(nested[0]))            # selector-nest vs nested rules
-                if extended and ".x" in a["text"]:
-                    ev("same", a=ast_of(d.get("ext", "")), out=ast_of(extended[0]))           # selector-extend vs @extend
-            except selparse.Unsupported as e:
-                ctx.extra["unparsed"] = ctx.extra.get("unparsed", 0) + 1
+            def unwrap(t):
+                # inspect() of a one-element comma list is written '(item,)'
+                t = (t or "").strip()
+                if t.startswith("(") and t.endswith(")"):
+                    t = t[1:-1].strip()
+                return t.rstrip(",").strip()
+
+            def attempt(fn):
+                # each observation is judged on its own: one unreadable result does not hide the others
+                try:
+                    fn()
+                except selparse.Unsupported:
+                    ctx.extra["unparsed"] = ctx.extra.get("unparsed", 0) + 1
+            ev("super", answer=d.get("sup") == "true")
+            if d.get("uni") == "null":
+                ev("unify", isnull=True)
+            else:
+                attempt(lambda: ev("unify", out=ast_of(unwrap(d.get("uni", "")))))
+            if j.get("lite"):
+                continue
+            ev("superself", answer=d.get("self") == "true")
+            attempt(lambda: ev("same", out=ast_of(d.get("parse", ""))))
+            if nested:
+                attempt(lambda: ev("same", a=ast_of(d.get("nest", "")), out=ast_of(nested[0])))            # selector-nest vs nested rules
+            # a compound extendee (.x.y) only applies to a compound that holds all its simple selectors: where no compound of A
+            # does, selector-extend and selector-replace must give A back
+            if not any("x" in cp["cmp"]["cls"] and "y" in cp["cmp"]["cls"] for cp in a["ast"]) and ":is(" not in a["text"] and ":not(" not in a["text"]:
+                attempt(lambda: ev("same", out=ast_of(d.get("cext", ""))))
+                attempt(lambda: ev("same", out=ast_of(d.get("crep", ""))))
+            if extended and ".x" in a["text"]:
+                attempt(lambda: ev("same", a=ast_of(d.get("ext", "")), out=ast_of(extended[0])))           # selector-extend vs @extend
     dist, gen, prints = C.tlc_trace_parallel("Trace_Selectors", tpath, nchunks=12)
     ctx.states += dist
     ctx.transitions += gen
-    ctx.validated += len(events)
+    ctx.validated += nobs[0]
+    ctx.extra["distinct_observations_judged"] = len(events)
     for kind, v in prints:
         if kind == "REJECT":
             j, a, b, k, kw = events[v["id"]]
